@@ -129,7 +129,6 @@ func runAlph(c aCase, o aOracles) (*vh.Violation, vh.Outcome) {
 		}
 		return n
 	}
-	nReqs := func() int { sim.mu.Lock(); defer sim.mu.Unlock(); return len(sim.reqs) }
 	inconclusive := func(why string) (*vh.Violation, vh.Outcome) {
 		out.Inconclusive = true
 		out.Labels = append(out.Labels, "inconclusive:"+why)
@@ -138,20 +137,38 @@ func runAlph(c aCase, o aOracles) (*vh.Violation, vh.Outcome) {
 	if !waitFor(5*time.Second, func() bool { return nKind("count") >= 2 }) {
 		return inconclusive("watcher-did-not-start")
 	}
-	// messages are stamped the moment they arrive (position in the request log, operation in progress)
+	// Messages are stamped with their position in the request log. Every receive from msgC happens under the
+	// simulator's lock - before each request is answered and, in between, from a collector - so a message the
+	// watcher handed over before it sent its next request is always stamped before that request (a free-running
+	// collector was stamping late under machine load: the answer to a *later* main-chain query then looked like
+	// the one the hand-off was based on).
 	var arrMu sync.Mutex
 	var arrivals []aArrival
 	curOp := -1
+	drain := func(n int) {
+		for {
+			select {
+			case m := <-msgC:
+				arrMu.Lock()
+				arrivals = append(arrivals, aArrival{m, n, curOp})
+				arrMu.Unlock()
+			default:
+				return
+			}
+		}
+	}
+	sim.mu.Lock()
+	sim.drain = drain
+	sim.mu.Unlock()
 	go func() {
 		for {
 			select {
 			case <-ctx.Done():
 				return
-			case m := <-msgC:
-				n := nReqs()
-				arrMu.Lock()
-				arrivals = append(arrivals, aArrival{m, n, curOp})
-				arrMu.Unlock()
+			case <-time.After(200 * time.Microsecond):
+				sim.mu.Lock()
+				drain(len(sim.reqs))
+				sim.mu.Unlock()
 			}
 		}
 	}()
